@@ -370,7 +370,7 @@ CHECKS = {
                     "thorough": {"procs": 16, "rc": (8000, 100), "timeout": 7200}},
                    {"type": "libfuzzer", "driver": CONV_FUZZ, "replay_driver": CONV,
                     "quick": {"procs": 4, "runs": 6000, "max_len": 600},
-                    "thorough": {"procs": 16, "runs": 250000, "max_len": 2048, "timeout": 7200}}],
+                    "thorough": {"procs": 16, "runs": 100000, "max_len": 2048, "timeout": 7200}}],
     },
 }
 
@@ -408,7 +408,7 @@ CHECKS["C18"]["rule"] += (" Stage conv: for generated conversations (see C03) ru
 # thorough tier only: coverage-guided exploration (libFuzzer over the byte encoding of scripts) with the property's own oracles in the target
 for _p in ("C03", "C05", "C07", "C08", "C13", "C14", "C17"):
     CHECKS[_p]["stages"].append({"type": "libfuzzer", "driver": CONV_FUZZ, "replay_driver": CONV, "tiers": ("thorough",), "seed_prop": "C04",
-                                 "thorough": {"procs": 16, "runs": 120000, "max_len": 2048, "timeout": 7200}})
+                                 "thorough": {"procs": 16, "runs": 30000, "max_len": 2048, "timeout": 7200}})
     CHECKS[_p]["rule"] += (" Thorough tier adds a libFuzzer stage (ASan+UBSan, coverage-guided) over the byte encoding of scripts with the same engine and oracles; "
                            "half of the workers start from the committed seed corpus, half from an empty one.")
 
